@@ -12,7 +12,14 @@ use miniz_oxide::inflate::TINFLStatus;
 use miniz_oxide::{DataFormat, MZFlush};
 use serde_json::{json, Value};
 
-pub const ENTRY: &[&str] = &["flat", "ring32k", "flat-ignore-adler", "inflate", "inflate-ignore-adler", "mz_inflate", "mz_uncompress", "tinfl_decompress", "tinfl_mem_to_mem"];
+pub const ENTRY: &[&str] = &["flat", "ring32k", "flat-ignore-adler", "inflate", "inflate-ignore-adler", "mz_inflate", "mz_uncompress", "tinfl_decompress", "tinfl_mem_to_mem", "flat-reused", "inflate-reused"];
+
+/// A complete small stream of the *other* framing, decoded by the object before it is
+/// re-initialised and used for the stream under test ("which entry point" includes a recycled decoder).
+fn other_format_stream(zlib: bool) -> Vec<u8> {
+    let d = b"previous stream, previous stream, previous stream";
+    if zlib { miniz_oxide::deflate::compress_to_vec(d, 6) } else { miniz_oxide::deflate::compress_to_vec_zlib(d, 6) }
+}
 
 fn trailer(kind: u8, len: usize, stream: &[u8]) -> Vec<u8> {
     match kind {
@@ -55,6 +62,16 @@ pub fn consumed_via(ep: &str, s: &GenStream, data: &[u8], ch: usize) -> Result<(
             let r = run_cuts(data, Mode::Flat, n + 16, zf, &cuts_of(ch, data.len()), false, 0x11);
             check("flat", r.status == TINFLStatus::Done, r.consumed, &r.out)
         }
+        "flat-reused" => {
+            let prev = other_format_stream(s.zlib);
+            let pf = if s.zlib { 0 } else { F_ZLIB };
+            let r = run_cuts_with(data, Mode::Flat, n + 16, zf, &cuts_of(ch, data.len()), false, 0x11, |d| {
+                let mut scratch = vec![0u8; 256];
+                let _ = miniz_oxide::inflate::core::decompress(d, &prev, &mut scratch, 0, pf | F_FLAT);
+                d.init();
+            });
+            check("flat, decoder reused after init()", r.status == TINFLStatus::Done, r.consumed, &r.out)
+        }
         "flat-ignore-adler" => {
             if !s.zlib {
                 return Ok(());
@@ -66,7 +83,7 @@ pub fn consumed_via(ep: &str, s: &GenStream, data: &[u8], ch: usize) -> Result<(
             let r = run_cuts(data, Mode::Ring, 32768, zf, &cuts_of(ch, data.len()), false, 0x11);
             check("ring", r.status == TINFLStatus::Done, r.consumed, &r.out)
         }
-        "inflate" | "inflate-ignore-adler" => {
+        "inflate" | "inflate-ignore-adler" | "inflate-reused" => {
             if ep == "inflate-ignore-adler" && !s.zlib {
                 return Ok(());
             }
@@ -78,6 +95,13 @@ pub fn consumed_via(ep: &str, s: &GenStream, data: &[u8], ch: usize) -> Result<(
                 DataFormat::Raw
             };
             let mut st = InflateState::new_boxed(fmt);
+            if ep == "inflate-reused" {
+                st = InflateState::new_boxed(if s.zlib { DataFormat::Raw } else { DataFormat::Zlib });
+                let prev = other_format_stream(s.zlib);
+                let mut scratch = vec![0u8; 256];
+                let _ = inflate(&mut st, &prev, &mut scratch, MZFlush::Finish);
+                st.reset(fmt);
+            }
             let mut out = vec![];
             let mut buf = vec![0u8; n + 64];
             let mut ip = 0;
